@@ -33,17 +33,24 @@ package generic
 //@   requires !quoted(e, q) ==> d == e
 //@   ensures rlen(d) == rlen(s) && (forall i int :: 0 <= i && i < rlen(s) ==> d[i] == s[i])
 //
+// where a generic quoted string that opened before i ends: just after the next quote of its kind (there is no escape), or at the end of input
+//@ rec gqEnd(s seq[rune], i int, q rune) int decreases len(s) - i =
+//@     (i < 0 || i >= len(s)) ? len(s) : (s[i] == q ? i + 1 : gqEnd(s, i + 1, q))
 //@ func (c *GenericQuoteState) NextToken
 //@   requires c != nil && isScanner(scanner) && sc(scanner).position + 1 < len(sc(scanner).content)
 //@   requires forall i int :: 0 <= i && i < len(sc(scanner).content) ==> scalar(sc(scanner).content[i])
 //@   ensures[C04,C12] result != nil && isScanner(scanner) && sc(scanner).content == old(sc(scanner).content) && result.typ != tokenizers.Eof
 //@   ensures[C04,C14] spans(result.value, scanner, old(cur(scanner)), cur(scanner))
 //@   ensures[C12] result.line == L(seq(sc(scanner).content), old(cur(scanner))) && result.column == C(seq(sc(scanner).content), old(cur(scanner)))
-//@   ensures[C14] result.typ == tokenizers.Quoted
+//@   ensures[C13,C14] result.typ == tokenizers.Quoted
+//@   ensures[C13,C14] cur(scanner) == gqEnd(seq(sc(scanner).content), old(cur(scanner)) + 1, sc(scanner).content[old(cur(scanner))])
 //@   assigns sc(scanner).position, sc(scanner).line, sc(scanner).column
 //@   nopanic
 //@   loop 0
 //@     invariant isScanner(scanner) && sc(scanner).content == old(sc(scanner).content)
+//@     invariant gqEnd(seq(sc(scanner).content), old(cur(scanner)) + 1, firstSymbol) == gqEnd(seq(sc(scanner).content), sc(scanner).position, firstSymbol)
+//@     invariant firstSymbol == sc(scanner).content[old(cur(scanner))]
+//@     invariant old(sc(scanner).position) + 1 <= sc(scanner).position && sc(scanner).position <= len(sc(scanner).content)
 //@     invariant old(sc(scanner).position) + 2 <= sc(scanner).position + (nextSymbol == -1 ? 1 : 0)
 //@     invariant nextSymbol == chr(seq(sc(scanner).content), sc(scanner).position)
 //@     invariant spans(builder(tokenValue), scanner, old(cur(scanner)), min(sc(scanner).position, len(sc(scanner).content)))
